@@ -115,6 +115,7 @@ func (l *slistener) Close() error {
 }
 
 var errListenerClose = errors.New("listener: close failed")
+
 func (l *slistener) Addr() net.Addr { return addr{} }
 
 type dlog struct {
@@ -363,8 +364,32 @@ func probeSched(f []string) string {
 	// `latestart`: the command loop does not wait for a chunked delivery's goroutine to reach the backend (the schedule of an
 	// unloaded production server: the goroutine is started and the handler runs on)
 	var lateStart atomic.Bool
+	// `holddeliver`: the delivery goroutine, having fetched the session, is held until the session has been logged out (the
+	// preemption that the known finding C08-late-delivery-after-logout is about, made deterministic)
+	var holdDeliver atomic.Bool
+	loggedOut := make(chan struct{})
+	var loggedOutOnce sync.Once
+	be.onLogout = func() { loggedOutOnce.Do(func() { close(loggedOut) }) }
+	reached := make(chan struct{})
+	var reachedOnce sync.Once
 	setVerifPoint(func(name string) {
+		if name == "bdat-deliver" && holdDeliver.Load() {
+			reachedOnce.Do(func() { close(reached) })
+			select {
+			case <-loggedOut:
+			case <-time.After(1500 * time.Millisecond):
+			}
+			return
+		}
 		if name == "bdat-spawned" {
+			if holdDeliver.Load() {
+				// the command loop goes on as soon as the goroutine holds the session
+				select {
+				case <-reached:
+				case <-time.After(1500 * time.Millisecond):
+				}
+				return
+			}
 			if lateStart.Load() {
 				return
 			}
@@ -402,6 +427,8 @@ func probeSched(f []string) string {
 			time.Sleep(time.Duration(atoi(a[1])) * time.Millisecond)
 		case "latestart":
 			lateStart.Store(true)
+		case "holddeliver":
+			holdDeliver.Store(true)
 		case "slowns":
 			be.nsDelayMs.Store(int64(atoi(a[1])))
 		case "slowlogout":
